@@ -586,6 +586,11 @@ class LimitedStream(io.RawIOBase):
 
             out.extend(data)
 
+        if self._limit_is_max and self.is_exhausted:
+            # The maximum was reached without seeing the end of the stream, report it
+            # the same way a sized read at the limit does instead of truncating.
+            self.on_exhausted()
+
         return bytes(out)
 
     def tell(self) -> int:
